@@ -241,7 +241,12 @@ def run_stream(pieces: List[Tuple[str, str]], cuts: Sequence[int], thr: int, min
                 raise Watch("more callbacks than characters: process() does not terminate")
         raised = ""
         try:
-            buf.append(piece)
+            if len(ev) % 2 == 1 and len(piece) >= 2:       # two appends, one process() (see buffer.run_buffer)
+                k = 1 + (fed % (len(piece) - 1))
+                buf.append(piece[:k])
+                buf.append(piece[k:])
+            else:
+                buf.append(piece)
             with bounded(30, f"Buffer.process on {len(text)} characters"):
                 buf.process(cb)
         except (Watch, Stalled) as e:
